@@ -2,7 +2,7 @@
 """Regenerates /verif/MANIFEST.json from the table below (single source of truth)."""
 import json, subprocess
 
-HOOK_COMMITS = ["5b0156d"]
+HOOK_COMMITS = ["5b0156d", "fc18a19"]
 
 # id -> (level text, level note, technique, design_ref)
 CLAIMED = {
